@@ -6,12 +6,21 @@
 //!
 //! case   = ( op ... )         op = ( swap d n b m ) | ( retarget d n d2 n2 ) | ( remove d n )
 //!                                  | ( touch d n m ) | ( compile d n src )
+//!                                  | ( compile d n src ( envop ... ) )
+//!          A compile op with a non-empty envop list is a request DURING WHOSE DETECTION PROBE the
+//!          envops are applied: the harness arms the compilers (file `arm`), runs the request on a
+//!          second thread, and the compiler that answers the probe stops inside it — it writes to the
+//!          fifo `ready` and blocks reading the fifo `go` — until the harness has applied the envops
+//!          and released it.  No timing is involved.  If the request needs no probe (memo hit,
+//!          nothing at the path, not a compiler) the envops are applied after it has finished.
 //! result = ( ev ... )          one per compile op:
-//!   ev   = ( outcome producer cur detected ( (id mode) ... ) )
+//!   ev   = ( outcome producer cur detected ( (id mode) ... ) cur0 )
 //!          outcome  unsupported | fail | hit | miss   (panic = compiler_info panicked: never expected)
 //!          producer stamp found in the object handed back (0 = none)
-//!          cur      () | ( bytes-id mtime )  what is at the path now: bytes-id read back from the
-//!                   file AND, for working compilers, confirmed by running the path DIRECTLY
+//!          cur0     () | ( bytes-id mtime )  what is at the path when the request is issued: bytes-id read back
+//!                   from the file AND, for working compilers, confirmed by running the path DIRECTLY
+//!          cur      the same when the request is served: = cur0, or, if the probe was held and the
+//!                   envops applied, measured again after them
 //!          detected 1 iff the detection probe was run for this request (read off the invocation log)
 //!          log      what was executed for the request: mode D(etect) E(preprocess) C(ompile) X(not a compiler)
 use futures::FutureExt;
@@ -22,7 +31,9 @@ use sccache::verif_hooks::compiler::{CacheControl, CompileResult, CompilerArgume
 use sccache::verif_hooks::jobserver::Client;
 use sccache::verif_hooks::mock_command::{CommandCreatorSync, ProcessCommandCreator};
 use std::ffi::OsString;
-use std::os::unix::fs::PermissionsExt;
+use std::io::{Read, Write};
+use std::os::unix::ffi::OsStrExt;
+use std::os::unix::fs::{OpenOptionsExt, PermissionsExt};
 use std::path::{Path, PathBuf};
 use std::sync::Arc;
 use vh::Sx;
@@ -42,7 +53,8 @@ fn logical(t: filetime::FileTime) -> u64 {
     (s as u64) * 4 + (t.nanoseconds() as u64) / 250_000_000
 }
 
-fn script(id: u64, log: &Path) -> String {
+fn script(id: u64, root: &Path) -> String {
+    let log = root.join("log");
     if id >= 100 {
         // not a compiler: fails whatever it is asked
         return format!(
@@ -63,6 +75,7 @@ done
 [ $mode = V ] && {{ echo "unrecognized option -vV" >&2; exit 1; }}
 case "$src" in *testfile.c) [ $mode = E ] && mode=D;; esac
 echo "{id} $mode" >> {log}
+if [ $mode = D ] && [ -e {root}/arm ]; then rm -f {root}/arm; echo r > {root}/ready; read x < {root}/go; fi
 case $mode in
   D) echo "compiler_id=gcc"; echo 'compiler_version="12.0"'; exit 0;;
   E) cat "$src"; exit 0;;
@@ -70,13 +83,15 @@ case $mode in
 esac
 "#,
         id = id,
-        log = log.display()
+        log = log.display(),
+        root = root.display()
     )
 }
 
 struct World {
     root: PathBuf,
     log: PathBuf,
+    cwd: PathBuf,
 }
 
 impl World {
@@ -84,9 +99,6 @@ impl World {
         self.root
             .join(format!("d{}", d % 8))
             .join(NAMES[(n as usize) % NAMES.len()])
-    }
-    fn unlink(&self, p: &Path) {
-        let _ = std::fs::remove_file(p);
     }
     fn take_log(&self) -> Vec<Sx> {
         let txt = std::fs::read_to_string(&self.log).unwrap_or_default();
@@ -99,6 +111,64 @@ impl World {
             }
         }
         v
+    }
+    /// swap / retarget / remove / touch; true if it was one of them
+    fn fs_op(&self, op: &Sx) -> bool {
+        match op.tag().as_str() {
+            "swap" => {
+                let p = self.path(op.arg(1).u64(), op.arg(2).u64());
+                // like `cp new tmp; touch -d; mv tmp path`: the path becomes a fresh regular file
+                let tmp = p.with_extension("tmp");
+                std::fs::write(&tmp, script(op.arg(3).u64(), &self.root)).unwrap();
+                std::fs::set_permissions(&tmp, std::fs::Permissions::from_mode(0o755)).unwrap();
+                filetime::set_file_mtime(&tmp, ft(op.arg(4).u64())).unwrap();
+                std::fs::rename(&tmp, &p).unwrap();
+                true
+            }
+            "retarget" => {
+                let l = self.path(op.arg(1).u64(), op.arg(2).u64());
+                let tgt = self.path(op.arg(3).u64(), op.arg(4).u64());
+                let _ = std::fs::remove_file(&l);
+                std::os::unix::fs::symlink(&tgt, &l).unwrap();
+                true
+            }
+            "remove" => {
+                let _ = std::fs::remove_file(self.path(op.arg(1).u64(), op.arg(2).u64()));
+                true
+            }
+            "touch" => {
+                // follows links; a dangling path is left alone
+                let _ = filetime::set_file_mtime(self.path(op.arg(1).u64(), op.arg(2).u64()), ft(op.arg(3).u64()));
+                true
+            }
+            _ => false,
+        }
+    }
+    /// ground truth about what is at the path now: () or (bytes-id mtime)
+    fn measure(&self, p: &Path, src: &str) -> Sx {
+        match std::fs::metadata(p) {
+            Ok(md) => {
+                let m = logical(filetime::FileTime::from_last_modification_time(&md));
+                let id = id_in_file(p).unwrap_or(0);
+                let mut b = id;
+                if id < 100 {
+                    // run the path DIRECTLY: this is what an uncached build would produce
+                    let dobj = self.cwd.join("direct.o");
+                    let _ = std::fs::remove_file(&dobj);
+                    let st = std::process::Command::new(p)
+                        .current_dir(&self.cwd)
+                        .args(["-c", src, "-o", "direct.o"])
+                        .status();
+                    let ds = stamp(&dobj);
+                    if st.map(|s| !s.success()).unwrap_or(true) || ds != id {
+                        b = 777_000 + ds; // the direct run disagrees with the label: never expected
+                    }
+                    let _ = self.take_log();
+                }
+                Sx::L(vec![Sx::n(b), Sx::n(m)])
+            }
+            Err(_) => Sx::L(vec![]),
+        }
     }
 }
 
@@ -117,20 +187,34 @@ fn id_in_file(p: &Path) -> Option<u64> {
     l.strip_prefix("# compiler ")?.trim().parse().ok()
 }
 
+fn mkfifo(p: &Path) {
+    let c = std::ffi::CString::new(p.as_os_str().as_bytes()).unwrap();
+    let rc = unsafe { libc::mkfifo(c.as_ptr(), 0o600) };
+    assert_eq!(rc, 0, "mkfifo");
+}
+
 fn run_case(rt: &tokio::runtime::Runtime, case: &Sx, seq: u64) -> Sx {
     let root = PathBuf::from(format!("/dev/shm/c12-{}-{}", std::process::id(), seq));
     let _ = std::fs::remove_dir_all(&root);
     std::fs::create_dir_all(&root).unwrap();
-    let w = World { log: root.join("log"), root: root.clone() };
+    let w = World { log: root.join("log"), cwd: root.join("w"), root: root.clone() };
     for d in 0..8 {
         std::fs::create_dir_all(root.join(format!("d{}", d))).unwrap();
     }
-    let cwd = root.join("w");
+    let cwd = w.cwd.clone();
     std::fs::create_dir_all(&cwd).unwrap();
     for s in 0..4 {
         std::fs::write(cwd.join(format!("s{}.c", s)), format!("int f{}(void){{return {};}}\n", s, s)).unwrap();
     }
     std::fs::write(&w.log, b"").unwrap();
+    mkfifo(&root.join("ready"));
+    mkfifo(&root.join("go"));
+    // a reader that stays open: the held compiler's `echo r > ready` never blocks
+    let mut ready = std::fs::OpenOptions::new()
+        .read(true)
+        .custom_flags(libc::O_NONBLOCK)
+        .open(root.join("ready"))
+        .unwrap();
     let pool = rt.handle().clone();
     let storage: Arc<dyn Storage> = Arc::new(DiskCache::new(
         root.join("cache"),
@@ -144,121 +228,114 @@ fn run_case(rt: &tokio::runtime::Runtime, case: &Sx, seq: u64) -> Sx {
     let creator = ProcessCommandCreator::new(&Client::new_num(4));
     let mut out = vec![];
     for op in case.list() {
-        let t = op.tag();
-        match t.as_str() {
-            "swap" => {
-                let p = w.path(op.arg(1).u64(), op.arg(2).u64());
-                // like `cp new tmp; touch -d; mv tmp path`: the path becomes a fresh regular file
-                let tmp = p.with_extension("tmp");
-                std::fs::write(&tmp, script(op.arg(3).u64(), &w.log)).unwrap();
-                std::fs::set_permissions(&tmp, std::fs::Permissions::from_mode(0o755)).unwrap();
-                filetime::set_file_mtime(&tmp, ft(op.arg(4).u64())).unwrap();
-                std::fs::rename(&tmp, &p).unwrap();
-            }
-            "retarget" => {
-                let l = w.path(op.arg(1).u64(), op.arg(2).u64());
-                let tgt = w.path(op.arg(3).u64(), op.arg(4).u64());
-                w.unlink(&l);
-                std::os::unix::fs::symlink(&tgt, &l).unwrap();
-            }
-            "remove" => {
-                let p = w.path(op.arg(1).u64(), op.arg(2).u64());
-                w.unlink(&p);
-            }
-            "touch" => {
-                let p = w.path(op.arg(1).u64(), op.arg(2).u64());
-                // follows links; a dangling path is left alone
-                let _ = filetime::set_file_mtime(&p, ft(op.arg(3).u64()));
-            }
-            "compile" => {
-                let p = w.path(op.arg(1).u64(), op.arg(2).u64());
-                let src = format!("s{}.c", op.arg(3).u64() % 4);
-                let obj = cwd.join("o.o");
-                let _ = std::fs::remove_file(&obj);
-                // ground truth about what is at the path now
-                let cur = match std::fs::metadata(&p) {
-                    Ok(md) => {
-                        let m = logical(filetime::FileTime::from_last_modification_time(&md));
-                        let id = id_in_file(&p).unwrap_or(0);
-                        let mut b = id;
-                        if id < 100 {
-                            // run the path DIRECTLY: this is what an uncached build would produce
-                            let dobj = cwd.join("direct.o");
-                            let _ = std::fs::remove_file(&dobj);
-                            let st = std::process::Command::new(&p)
-                                .current_dir(&cwd)
-                                .args(["-c", &src, "-o", "direct.o"])
-                                .status();
-                            let ds = stamp(&dobj);
-                            if st.map(|s| !s.success()).unwrap_or(true) || ds != id {
-                                b = 777_000 + ds; // the direct run disagrees with the label: never expected
-                            }
-                            let _ = w.take_log();
-                        }
-                        Sx::L(vec![Sx::n(b), Sx::n(m)])
-                    }
-                    Err(_) => Sx::L(vec![]),
-                };
-                let args: Vec<OsString> = vec!["-c".into(), src.clone().into(), "-o".into(), "o.o".into()];
-                let env: Vec<(OsString, OsString)> = vec![];
-                let svc = service.clone();
-                let info = rt.block_on(
-                    std::panic::AssertUnwindSafe(svc.compiler_info(p.clone(), cwd.clone(), &args, &env)).catch_unwind(),
-                );
-                let mut detected = 0u64;
-                let outcome: &str = match info {
-                    Err(_) => "panic",
-                    Ok(Err(_)) => "unsupported",
-                    Ok(Ok(c)) => match c.parse_arguments(&args, &cwd, &env) {
-                        CompilerArguments::Ok(hasher) => {
-                            let r = rt.block_on(async {
-                                let r = hasher
-                                    .get_cached_or_compile(
-                                        &service,
-                                        None,
-                                        creator.clone(),
-                                        storage.clone(),
-                                        args.clone(),
-                                        cwd.clone(),
-                                        env.clone(),
-                                        CacheControl::Default,
-                                        pool.clone(),
-                                    )
-                                    .await;
-                                match r {
-                                    Ok((CompileResult::CacheMiss(_, _, _, fut), o)) => {
-                                        let _ = fut.await;
-                                        if o.status.success() { "miss" } else { "fail" }
-                                    }
-                                    Ok((CompileResult::CacheHit(_), o)) => {
-                                        if o.status.success() { "hit" } else { "fail" }
-                                    }
-                                    Ok((CompileResult::CompileFailed(..), _)) => "fail",
-                                    // the preprocessor run failed
-                                    Ok((CompileResult::Error, _)) => "fail",
-                                    Ok(_) => "other",
-                                    Err(_) => "fail",
-                                }
-                            });
-                            r
-                        }
-                        _ => "notcacheable",
-                    },
-                };
-                let log = w.take_log();
-                // the probe ran iff a compiler logged a D, or (detection being the only thing that runs
-                // before an "unsupported" answer) a non-compiler logged anything
-                if log.iter().any(|e| e.arg(1).is_sym("D")) || (outcome == "unsupported" && !log.is_empty()) {
-                    detected = 1;
-                }
-                let prod = if outcome == "hit" || outcome == "miss" { stamp(&obj) } else { 0 };
-                out.push(Sx::L(vec![Sx::sym(outcome), Sx::n(prod), cur, Sx::n(detected), Sx::L(log)]));
-            }
-            _ => out.push(Sx::L(vec![Sx::sym("bad_op")])),
+        if w.fs_op(op) {
+            continue;
         }
+        if op.tag() != "compile" {
+            out.push(Sx::L(vec![Sx::sym("bad_op")]));
+            continue;
+        }
+        let p = w.path(op.arg(1).u64(), op.arg(2).u64());
+        let src = format!("s{}.c", op.arg(3).u64() % 4);
+        let env_ops: Vec<Sx> = op.arg(4).list().to_vec();
+        let obj = cwd.join("o.o");
+        let _ = std::fs::remove_file(&obj);
+        let cur0 = w.measure(&p, &src);
+        let args: Vec<OsString> = vec!["-c".into(), src.clone().into(), "-o".into(), "o.o".into()];
+        let env: Vec<(OsString, OsString)> = vec![];
+        // the request: the real compiler_info, then what check_compiler / start_compile_task do with its answer
+        let request = || -> &'static str {
+            let svc = service.clone();
+            let info = rt.block_on(
+                std::panic::AssertUnwindSafe(svc.compiler_info(p.clone(), cwd.clone(), &args, &env)).catch_unwind(),
+            );
+            match info {
+                Err(_) => "panic",
+                Ok(Err(_)) => "unsupported",
+                Ok(Ok(c)) => match c.parse_arguments(&args, &cwd, &env) {
+                    CompilerArguments::Ok(hasher) => rt.block_on(async {
+                        let r = hasher
+                            .get_cached_or_compile(
+                                &service,
+                                None,
+                                creator.clone(),
+                                storage.clone(),
+                                args.clone(),
+                                cwd.clone(),
+                                env.clone(),
+                                CacheControl::Default,
+                                pool.clone(),
+                            )
+                            .await;
+                        match r {
+                            Ok((CompileResult::CacheMiss(_, _, _, fut), o)) => {
+                                let _ = fut.await;
+                                if o.status.success() { "miss" } else { "fail" }
+                            }
+                            Ok((CompileResult::CacheHit(_), o)) => {
+                                if o.status.success() { "hit" } else { "fail" }
+                            }
+                            Ok((CompileResult::CompileFailed(..), _)) => "fail",
+                            // the preprocessor run failed
+                            Ok((CompileResult::Error, _)) => "fail",
+                            Ok(_) => "other",
+                            Err(_) => "fail",
+                        }
+                    }),
+                    _ => "notcacheable",
+                },
+            }
+        };
+        let mut held = false;
+        let outcome: &str = if env_ops.is_empty() {
+            request()
+        } else {
+            std::fs::write(root.join("arm"), b"").unwrap();
+            let o = std::thread::scope(|s| {
+                let h = s.spawn(request);
+                let mut buf = [0u8; 8];
+                loop {
+                    if h.is_finished() {
+                        break;
+                    }
+                    if matches!(ready.read(&mut buf), Ok(n) if n > 0) {
+                        held = true;
+                        break;
+                    }
+                    std::thread::sleep(std::time::Duration::from_millis(1));
+                }
+                if held {
+                    // the probe is running and stopped: now the environment acts
+                    for e in &env_ops {
+                        w.fs_op(e);
+                    }
+                    let mut go = std::fs::OpenOptions::new().write(true).open(root.join("go")).unwrap();
+                    go.write_all(b"g\n").unwrap();
+                }
+                h.join().unwrap_or("panic")
+            });
+            if !held {
+                let _ = std::fs::remove_file(root.join("arm"));
+                for e in &env_ops {
+                    w.fs_op(e);
+                }
+            }
+            o
+        };
+        let log = w.take_log();
+        let mut detected = 0u64;
+        // the probe ran iff a compiler logged a D, or (detection being the only thing that runs
+        // before an "unsupported" answer) a non-compiler logged anything
+        if log.iter().any(|e| e.arg(1).is_sym("D")) || (outcome == "unsupported" && !log.is_empty()) {
+            detected = 1;
+        }
+        let prod = if outcome == "hit" || outcome == "miss" { stamp(&obj) } else { 0 };
+        let cur = if held { w.measure(&p, &src) } else { cur0.clone() };
+        out.push(Sx::L(vec![Sx::sym(outcome), Sx::n(prod), cur, Sx::n(detected), Sx::L(log), cur0]));
     }
     drop(service);
     drop(storage);
+    drop(ready);
     let _ = std::fs::remove_dir_all(&root);
     Sx::L(out)
 }
